@@ -172,6 +172,7 @@ let handle (s : sexp) : string = match s with
       let cells = list_of (pair_of q_of) cells and c = list_of q_of c in
       sb (if bool_of mono then check_trig_acc_hi (bool_of usesin) c (q_of s) (q_of tau) cells (nat_of n) (q_of eps)
           else check_trig_acc_hi_cheb (bool_of usesin) c (q_of s) (q_of tau) cells (nat_of n) (q_of eps))
+  | L [A "roundz"; th; c] -> sl sq (round_zeros_q (q_of th) (list_of q_of c))
   | L [A "invacchi"; c; s; kappa; cells; k; tol] ->
       sb (check_inv_acc_hi_cheb (list_of q_of c) (q_of s) (q_of kappa) (list_of (pair_of q_of) cells) (nat_of k) (q_of tol))
   | L [A "invacc"; c; s; kappa; thmax; cells; tol] ->
